@@ -395,6 +395,20 @@ def run(ck, facts):
             for inner in C.walk(lp["body"]):
                 if inner.get("k") == "for" and any(x.get("k") == "local" and x.get("id") == vals_id for x in C.walk(inner["iter"])):
                     val_elems |= C.pat_bind_ids(inner.get("pat"))
+            # the set of use-site lifetimes of a slot is consumed whole: only by iterating all of it (never `.next()`, `.first()`, `.take(n)` ...)
+            TRUNC = {"next", "first", "last", "take", "nth", "skip", "find", "min", "max", "step_by", "filter", "next_back", "pop_first", "pop_last", "take_while", "skip_while", "position", "find_map"}
+            for x in C.walk(lp["body"]):
+                if x.get("k") == "mcall" and x.get("m") in TRUNC:
+                    r_ = x
+                    chain = []
+                    while isinstance(r_, dict) and r_.get("k") == "mcall":
+                        chain.append(r_["m"])
+                        r_ = C.strip(r_["recv"])
+                    if isinstance(r_, dict) and r_.get("k") == "local" and r_.get("id") == vals_id:
+                        ck.bad("R6", "%s/use-lifetimes-consumed-whole" % C.norm_path(f["path"]).split("::")[-1],
+                               "the use-site lifetimes of a struct slot are cut down by `.%s()`: only some of the edge arrays the slot borrows from receive what is allocated for it, "
+                               "the others can be collected while the returned value still points into that memory" % ".".join(reversed(chain)), C.loc(f, x.get("ln")))
+            ck.ok("R6", "%s/use-lifetimes-loop#%d" % (C.norm_path(f["path"]).split("::")[-1], lp.get("ln") or 0), "iterated", C.loc(f, lp.get("ln")))
             for x in C.walk(lp["body"]):
                 if x.get("k") != "mcall" or x.get("m") != "fmt_lifetime" or not x.get("a"):
                     continue
@@ -413,6 +427,153 @@ def run(ck, facts):
                               "a use-site lifetime is looked up in the struct's definition environment", C.loc(f, x.get("ln")))
     if n6 < 4:
         ck.bad("R6", "floor", "only %d branded fmt_lifetime calls found (4 counted: dart and js, def and use)" % n6)
+
+    # ---------------- R2 (cont.) entries of a borrowed_struct_lifetime_map are recorded under conditions on the lifetimes at hand only: a guard that
+    # consults other state (a `seen` set, a counter) drops the second slot of `Inner<'a, 'a>`
+    nins = 0
+    for f in core.fn_list:
+        if "hir" not in f or "::hir::methods::borrowing_param" not in f["path"]:
+            continue
+        body = C.fn_body(f)
+        loops = [l_ for l_ in C.walk(body) if l_.get("k") == "for"]
+        for n, st in C.with_conditions(body):
+            if not (n.get("k") == "mcall" and n.get("m") == "insert"):
+                continue
+            ch, r_ = [], C.strip(n["recv"])
+            while isinstance(r_, dict) and r_.get("k") == "mcall":
+                ch.append(r_["m"])
+                r_ = C.strip(r_["recv"])
+            if "entry" not in ch or not (isinstance(r_, dict) and r_.get("k") == "local" and "lifetime_map" in str(r_.get("n"))):
+                continue
+            nins += 1
+            bound = set()
+            for l_ in loops:
+                if any(x is n for x in C.walk(l_["body"])):
+                    bound |= C.pat_bind_ids(l_.get("pat"))
+            for kind, a_, b_ in st:
+                if kind == "if":
+                    c_ = C.strip_keep_macro(a_)
+                    if isinstance(c_, dict) and c_.get("k") == "let":
+                        bound |= C.pat_bind_ids(c_.get("pat"))
+                elif kind == "arm":
+                    bound |= C.pat_bind_ids(b_.get("pat"))
+            stray = set()
+            for kind, a_, b_ in st:
+                cond_ = a_ if kind == "if" else (b_.get("g") if kind == "arm" else None)
+                if cond_ is None:
+                    continue
+                c_ = C.strip_keep_macro(cond_)
+                src_ = c_.get("init") if isinstance(c_, dict) and c_.get("k") == "let" else cond_
+                for x in C.walk(src_):
+                    if x.get("k") == "local" and x.get("id") not in bound and x.get("n") not in ("self",):
+                        stray.add(x.get("n"))
+            # parameters and values derived from the struct / field at hand are not state: only locals that are mutated count
+            mutated = {C.strip(x["recv"]).get("n") for x in C.walk(body) if x.get("k") == "mcall" and x.get("m") in ("insert", "push", "remove", "extend", "push_back") and C.strip(x["recv"]).get("k") == "local"}
+            stray &= mutated
+            key = "%s/edge-insert#%d" % (C.norm_path(f["path"]).split("::")[-1], sum(1 for i in ck.instances if i["rule"] == "R2" and i["key"].startswith(C.norm_path(f["path"]).split("::")[-1] + "/edge-insert")))
+            ck.expect(not stray, "R2", key, "recorded under conditions on the lifetimes at hand",
+                      "an entry of the struct's lifetime map is recorded only if mutable state `%s` allows it: a second slot instantiated with the same outer lifetime (`Inner<'a, 'a>`) is skipped, "
+                      "so the fields behind that slot are not kept alive" % sorted(stray), C.loc(f, n.get("ln")))
+    if nins < 2:
+        ck.bad("R2", "edge-insert-floor", "only %d lifetime-map insertions found in hir::methods::borrowing_param (2 counted: visit_param, compute_for_struct_field)" % nins)
+
+    # ---------------- R6 (cont.) Dart slice helpers: a slice handed to Dart as a view of Rust memory (`asTypedList` without a copy) keeps its lifetime edges alive
+    ds = tool.fn("dart::TyGenContext::gen_slice")
+
+    def slot_match(field):
+        """the match over hir::Slice that fills SliceTemplate.<field> (directly, through a local, or in a helper)"""
+        for b_ in C.bodies_inl(tool, C.fn_body(ds), depth=1):
+            for x in C.walk(b_):
+                if x.get("k") == "struct" and (x.get("adt") or "").endswith("SliceTemplate"):
+                    e = next((fl["e"] for fl in x["fields"] if fl["n"] == field), None)
+                    seen_ = 0
+                    defs_ = dict(flow.defs_of(ds))
+                    while e is not None and seen_ < 6:
+                        seen_ += 1
+                        e = C.strip(e)
+                        if e.get("k") == "match" and (e.get("sadt") or "").endswith("hir::types::Slice"):
+                            return e
+                        if e.get("k") == "local" and defs_.get(e.get("id"), (None,))[0] == "expr":
+                            e = defs_[e["id"]][1]
+                            continue
+                        if e.get("k") in ("call", "mcall"):
+                            cal = tool.norm.get(C.norm_path(e.get("p") or C.callee(e) or ""))
+                            if cal and "hir" in cal:
+                                defs_ = dict(flow.defs_of(cal))
+                                bb_ = C.fn_body(cal)
+                                e = bb_.get("e") if bb_.get("k") == "block" else bb_
+                                continue
+                        if e.get("k") == "mcall":
+                            e = e["recv"]
+                            continue
+                        break
+        return None
+    m_to, m_free = slot_match("to_dart"), slot_match("borrowed_free")
+    if not m_to or not m_free:
+        ck.bad("R6", "dart::gen_slice/anchors", "matches filling SliceTemplate.to_dart / borrowed_free not found", C.loc(ds))
+    else:
+        def lit_by_value(mt):
+            out = []
+            for v, hits in C.decision_table(mt, adts):
+                arm = next((i for i, c_ in hits if not c_), None)
+                if arm is not None and not C.diverges(mt["arms"][arm]["b"]):
+                    out.append((v, " ".join(C.str_lits(mt["arms"][arm]["b"]))))
+            return out
+
+        def compat(a_, b_):
+            if a_.variant is None or b_.variant is None:
+                return True
+            if a_.variant != b_.variant:
+                return False
+            return all(compat(x, y) for x, y in zip(a_.subs or [], b_.subs or []))
+
+        def more_specific(a_, b_):
+            return len(a_.show()) >= len(b_.show())
+        # slice kinds for which the helper class is never emitted: some slot of the template panics for them (in gen_slice itself or in the
+        # formatter function the arm hands the primitive to)
+        dead = []
+        for b0 in C.bodies_inl(tool, C.fn_body(ds), depth=1):
+            smatches = [mt for mt in C.walk(b0) if mt.get("k") == "match" and (mt.get("sadt") or "").endswith("hir::types::Slice")]
+            for mt in smatches:
+                if any(o is not mt and any(x is mt for x in C.walk(o)) for o in smatches):
+                    continue   # nested under an arm of another match on the slice: its catch-all is not reached by the kinds that arm excluded
+                for v, hits in C.decision_table(mt, adts):
+                    arm = next((i for i, c_ in hits if not c_), None)
+                    if arm is None or v.variant is None:
+                        continue
+                    ab = mt["arms"][arm]
+                    if C.diverges(ab["b"]) or C.panic_macro_of(ab["b"]):
+                        dead.append(v)
+                        continue
+                    # the primitive handed on to a formatter whose own match panics for it
+                    bound = C.pat_bind_ids(ab["pat"])
+                    for c_ in C.calls_in(ab["b"]):
+                        cal = tool.norm.get(C.norm_path(c_.get("p") or C.callee(c_) or ""))
+                        if not cal or "hir" not in cal or not any(x.get("k") == "local" and x.get("id") in bound for a0 in c_.get("a", []) for x in C.walk(a0)):
+                            continue
+                        for m2 in C.walk(C.fn_body(cal)):
+                            if m2.get("k") == "match" and (m2.get("sadt") or "").endswith("PrimitiveType"):
+                                for v2, h2 in C.decision_table(m2, adts):
+                                    a2 = next((i for i, c2 in h2 if not c2), None)
+                                    if a2 is not None and (C.diverges(m2["arms"][a2]["b"]) or C.panic_macro_of(m2["arms"][a2]["b"])) and v.variant == "Primitive" and v.subs and len(v.subs) > 1 and compat(v.subs[1], v2):
+                                        dead.append(C.Val(adt=v.adt, variant="Primitive", subs=[v.subs[0], v2]))
+        t_to, t_free = lit_by_value(m_to), lit_by_value(m_free)
+        nv = 0
+        for v, lit in t_to:
+            is_view = "asTypedList" in lit and not re.search(r"toList|convert\(|fromCharCodes|generate", lit)
+            if not is_view:
+                continue
+            for vf, fr in t_free:
+                if not compat(v, vf):
+                    continue
+                spec = vf if more_specific(vf, v) else v
+                if any(compat(d_, spec) and more_specific(spec, d_) for d_ in dead):
+                    continue    # the generator panics for this kind before anything is emitted (C15's inventory judges that panic)
+                nv += 1
+                ck.expect("lifetimeEdges" in fr, "R6", "dart::gen_slice/view-keeps-edges/" + spec.show(), "attach(r, lifetimeEdges)",
+                          "a borrowed %s is handed to Dart as a typed-list view of Rust memory, but its `_toDart` does not attach the lifetime edges (`%s`): the owner can be collected while the list is in use" % (spec.show(), fr[:50]), C.loc(ds, m_free.get("ln")))
+        if nv < 1:
+            ck.bad("R6", "dart::gen_slice/view-floor", "no typed-list view arm found in to_dart", C.loc(ds))
 
     # ---------------- R3 (cont.) worklist loops of the outlives closure run until the queue is empty (MIR): once `pop()` has produced an element,
     # control does not reach a `None` result (or leave the loop) without asking `pop()` again
